@@ -27,9 +27,10 @@ FNS = {
     'do_close': ('doClose', CTX),
     'read_message_frame': ('readMessageFrame', CTX),
     'read': ('read', CTX),
+    'set_config': ('setConfig', CTX),
 }
 ORDER = ['set_additional', 'check_connection_reset', 'buffer_frame', '_write', 'flush', 'close', 'write',
-         'do_close', 'read_message_frame', 'read']
+         'do_close', 'read_message_frame', 'read', 'set_config']
 
 ENUM_TYPES = {
     'WebSocketState': 'WsState', 'Role': 'Role', 'OpCode': 'OpCode', 'OpCtl': 'OpCtl', 'OpData': 'OpData',
@@ -43,13 +44,16 @@ SELF_FIELDS = {
     ('unflushed_additional',): '.c.unflushed', ('incomplete',): '.c.incomplete',
     ('config', 'max_frame_size'): '.c.cfg.maxFrame', ('config', 'max_message_size'): '.c.cfg.maxMsg',
     ('config', 'accept_unmasked_frames'): '.c.cfg.acceptUnmasked',
+    ('config', 'max_write_buffer_size'): '.c.cfg.maxw', ('config', 'write_buffer_size'): '.c.cfg.wbuf',
 }
 SELF_SETTERS = {'state': 'setStateM', 'additional_send': 'setAdditionalM',
                 'unflushed_additional': 'setUnflushedM', 'incomplete': 'setIncompleteM'}
 FIELD_RENAME = {'is_final': 'fin'}
 
 TYPE_MAP = {'Message': 'Message', 'Frame': 'Frame', 'CloseFrame': 'CloseFrame', 'bool': 'Bool', '()': 'Unit',
-            'T': 'α', 'WebSocketState': 'WsState', 'usize': 'Nat'}
+            'T': 'α', 'WebSocketState': 'WsState', 'usize': 'Nat',
+            # the caller's closure of `set_config`: a function on configurations
+            'implFnOnce(&mutWebSocketConfig)': 'Config → Config'}
 
 # panic sites: (function, macro-or-method, ordinal) -> PanicSite constructor
 PANIC_SITES = {
@@ -453,6 +457,13 @@ class Tr:
             if sp == ('state',):
                 return 'MP', f'replaceState {paren(self.v(args[1], env))}'
             self.fail(env, 'replace() on something other than self.state')
+        if name == 'set_func' and env.fn == 'set_config':
+            # the caller's closure applied to the stored configuration
+            a = args[0] if len(args) == 1 else None
+            print_arg = a
+            if a is not None and a[0] in ('ref', 'refmut', 'ref_mut') and self_field_path(a[-1]) == ('config',):
+                return 'MP', 'applyCfg set_func'
+            self.fail(env, f'set_func must be applied to &mut self.config, got {print_arg}')
         if name == 'check_max_size':
             return 'R', f'checkMaxSizeRes {paren(self.v(args[0], env))} {paren(self.v(args[1], env))}'
         if name == 'IncompleteMessage::new':
@@ -508,9 +519,15 @@ class Tr:
                 return 'M', f'codecBufferFrame {paren(self.v(argv[0], env))}'
             if m == 'write_out_buffer':
                 return 'M', 'codecWriteOutBuffer'
+            if m == 'set_max_out_buffer_len' and len(argv) == 1:
+                return 'MP', f'codecSetMaxOut {paren(self.v(argv[0], env))}'
+            if m == 'set_out_buffer_write_len' and len(argv) == 1:
+                return 'MP', f'codecSetWriteLen {paren(self.v(argv[0], env))}'
             if m == 'read_frame':
                 return 'M', 'codecReadFrame ' + ' '.join(paren(self.v(a, env)) for a in argv)
             self.fail(env, f'self.frame.{m}()')
+        if sp == ('config',) and m == 'assert_valid' and not args:
+            return 'MP', 'assertValidCfg'
         if sp == ('state',) and m == 'check_not_terminated':
             return 'R', f'checkNotTerminated (← getW).c.state'
         if sp == ('additional_send',) and m == 'take':
